@@ -1,6 +1,7 @@
 // C17: the exported cloud key contains only public evaluation material
 #include "gates.hpp"
 #include "iokinds.hpp"
+#include <algorithm>
 VH_MAIN_GLOBALS
 using namespace vh;
 
@@ -178,6 +179,20 @@ static void check_keyset(const TFheGateBootstrappingParameterSet *gb, const std:
                   for (int j = 0; j < t; j++) for (int h = 1; h < base; h++) { uint64_t r = ((uint64_t) i * t + j) * base + h; const char *row = ksb + r * (n + 1) * 4;
                       U ph; memcpy(&ph, row + 4 * n, 4); for (int q = 0; q < n; q++) { int32_t a; memcpy(&a, row + 4 * q, 4); ph -= (U) a * (U) sk->lwe_key->key[q]; }
                       U msg = (U) bit * (U) h * ((U) 1 << (32 - (j + 1) * bb)); rows2++; if (ph == msg) exact++; } }
+              // no two rows carry the same noise value more often than chance allows (two rows with one noise value differ by a
+              // noiseless sample of the key): all non-zero-digit rows, exact noise with the secret key, equal pairs against the
+              // collision rate of a discretised Gaussian of the configured width, n(n-1)/2 / (2 sigma sqrt(pi))
+              { std::vector<int32_t> nz; nz.reserve((size_t) k * N * t * (base - 1));
+                for (int i = 0; i < k * N; i++) { int bit = sk->tgsw_key->tlwe_key.key[i / N].coefs[i % N];
+                    for (int j = 0; j < t; j++) for (int h = 1; h < base; h++) { uint64_t r = ((uint64_t) i * t + j) * base + h; const char *row = ksb + r * (n + 1) * 4;
+                        U ph; memcpy(&ph, row + 4 * n, 4); for (int q = 0; q < n; q++) { int32_t a; memcpy(&a, row + 4 * q, 4); ph -= (U) a * (U) sk->lwe_key->key[q]; }
+                        nz.push_back((int32_t) (ph - (U) bit * (U) h * ((U) 1 << (32 - (j + 1) * bb)))); } }
+                std::sort(nz.begin(), nz.end()); double pairs = 0; for (size_t i = 0; i < nz.size();) { size_t j2 = i; while (j2 < nz.size() && nz[j2] == nz[i]) j2++; double c = (double) (j2 - i); pairs += c * (c - 1) / 2; i = j2; }
+                double sigma = gb->in_out_params->alpha_min * 4294967296.0, m = (double) nz.size(), expected = sigma > 0 ? m * (m - 1) / 2 / (2 * sigma * sqrt(M_PI)) : 0;
+                out.evaluations++;
+                out.stat(J().s("kind", "noise-repeats").s("config", cfg).u("rows", nz.size()).d("equal_noise_pairs", pairs).d("expected_by_chance", expected));
+                if (sigma >= 64 && nz.size() >= 1000 && pairs > 3 * expected + 8 * sqrt(expected) + 20)
+                    out.viol("cloud:key-switching-rows-share-noise-values", J().s("config", cfg).u("rows", nz.size()).d("equal_noise_pairs", pairs).d("expected_by_chance", expected)); }
               out.evaluations++;
               if (rows2 >= 64 && exact > rows2 / 2 && gb->in_out_params->alpha_min >= ldexp(1., -30))
                   out.viol("cloud:key-switching-rows-carry-no-noise", J().s("config", cfg).u("rows_examined", rows2).u("rows_with_exactly_zero_noise", exact).d("configured_stdev", gb->in_out_params->alpha_min)); }
